@@ -2,8 +2,8 @@
    handling of input that arrives during a search (after the fixes 8ff4e2c bare go, 0de86eb EOF = quit, b1eb103 poll dispatch).
    Input: a list of (d, line): the line becomes visible to the engine d polls after the previous line was taken (d is irrelevant
    while the engine is idle: the main loop blocks on the channel).  End of input = the reader thread sends "quit".
-   Modelled commands: uci, isready, ucinewgame/cleartt, position, move, go (depth N | infinite | bare | movetime 0), stop (idle), eval, d,
-   perft N (N >= 1), perft! N (N < 255), quit/exit/x, unknown.  Not modelled (OUnmodelled): help, psuite, sbench, clock-based go,
+   Modelled commands: uci, isready, ucinewgame/cleartt, position, move, go (every form whose arguments parse; the moment a time budget runs out is an oracle), stop (idle), eval, d,
+   perft N (N >= 1), perft! N (N < 255), quit/exit/x, unknown.  Not modelled (OUnmodelled): help, psuite, sbench, go random,
    perft 0 (the u8 depth wraps to 255) and perft! 255 (depth + 1 overflows).
    Threads, the OS pipe and wall-clock time are not modelled: the channel is a FIFO of lines (trusted: std::sync::mpsc, one producer). *)
 From Coq Require Import NArith ZArith List Bool String Ascii FMapPositive.
@@ -114,9 +114,20 @@ Fixpoint poll_schedule (input : list (nat * string)) (at_ : nat) (npolls : optio
 Definition stop_poll (input : list (nat * string)) : option nat :=
   match poll_schedule input 0 None (List.length input) with (_, Some (k, _), _) => Some k | _ => None end.
 
+(* the deadline of a search with a time budget: wall-clock time is not modelled, so the index of the first poll that finds the budget used up is an
+   oracle `dl` (every theorem quantifies over it).  budget -1 = no deadline; budget 0 = already expired at the first poll; otherwise poll `dl`.
+   A poll that finds the deadline passed returns before looking at the channel, so lines are only taken by polls with a smaller index. *)
+Definition deadline_poll (dl : nat) (max_time : Z) : option nat :=
+  if (max_time =? -1)%Z then None else if (max_time =? 0)%Z then Some O else Some dl.
+Definition stop_index (dl : nat) (max_time : Z) (input : list (nat * string)) : option nat :=
+  match deadline_poll dl max_time, stop_poll input with
+  | None, s => s
+  | Some d, Some s => Some (Nat.min s d)
+  | Some d, None => Some d
+  end.
 (* the engine's polling cadence plus the verification hook's extra polls *)
-Definition session_search (extra : N) (u : ustate) (depth : Z) (max_time : Z) (input : list (nat * string)) :=
-  let stopk : option nat := if (max_time =? 0)%Z then Some O else stop_poll input in
+Definition session_search (extra : N) (dl : nat) (u : ustate) (depth : Z) (max_time : Z) (input : list (nat * string)) :=
+  let stopk : option nat := stop_index dl max_time input in
   chess_search (c_pollp extra) (fun k => match stopk with Some s => Nat.leb s k | None => false end) false
                (u_game u) depth (u_tt u) (u_rep u ++ repeat 0%N (N.to_nat REP_CAPACITY - List.length (u_rep u))) (List.length (u_rep u)).
 
@@ -132,7 +143,7 @@ Definition perft_lines (d : N) (g : game) : list (string * N) :=
 Definition go_perft (d : N) (g : game) (detail : bool) : uout := OPerft d (if detail then perft_lines d g else []) (perft_n d g).
 
 (* one iteration of the main loop on `line`; `input` = the lines not yet read. Returns new state, outputs, the re-queued line, remaining input, status *)
-Definition uci_step (extra : N) (u : ustate) (line0 : string) (input : list (nat * string))
+Definition uci_step (extra : N) (dl : nat) (u : ustate) (line0 : string) (input : list (nat * string))
   : ustate * list uout * option string * list (nat * string) * status :=
   let line := trim line0 in
   if String.eqb line "" then (u, [], None, input, Continue) else
@@ -158,14 +169,12 @@ Definition uci_step (extra : N) (u : ustate) (line0 : string) (input : list (nat
     | GoReturn msgs => (u, map OText msgs, None, input, Continue)
     | GoArgs a msgs =>
       let max_time := go_budget a in
-      if negb ((max_time =? -1)%Z || (max_time =? 0)%Z) then (u, map OText msgs ++ [OUnmodelled "go with a clock"], None, input, Continue) else
-      match session_search extra u (g_depth a) max_time input with
+      match session_search extra dl u (g_depth a) max_time input with
       | SFuel => (u, [], None, input, UPanic)
       | SDone outs e _ =>
-        let '(nready, stopper, rest) :=
-          if (max_time =? 0)%Z
-          then (* the deadline is seen by the first poll, before the channel is looked at; nothing is read afterwards *) (O, None, input)
-          else poll_schedule input 0 (Some (npolls e)) (List.length input) in
+        (* lines are taken by the polls made before the deadline was seen *)
+        let limit := match deadline_poll dl max_time with None => npolls e | Some d => Nat.min (npolls e) d end in
+        let '(nready, stopper, rest) := poll_schedule input 0 (Some limit) (List.length input) in
         let requeue := match stopper, rest, input with
                        | Some (k, true), _, _ => nth_error (map snd input) (List.length input - List.length rest - 1)
                        | _, _, _ => None
@@ -207,7 +216,7 @@ Definition uci_step (extra : N) (u : ustate) (line0 : string) (input : list (nat
 
 (* the whole session: the re-queued line first, then the input. The reader thread's "quit" at end of input is part of `input`
    (uci_session appends it); reading beyond it is a read from a disconnected channel: unreachable!() *)
-Fixpoint uci_run (extra : N) (fuel : nat) (u : ustate) (pending : option string) (input : list (nat * string)) : list uout * status :=
+Fixpoint uci_run (extra : N) (dls : list nat) (fuel : nat) (u : ustate) (pending : option string) (input : list (nat * string)) : list uout * status :=
   match fuel with
   | O => ([], Continue)
   | S f =>
@@ -219,9 +228,9 @@ Fixpoint uci_run (extra : N) (fuel : nat) (u : ustate) (pending : option string)
     match next with
     | None => ([], UPanic)
     | Some (l, input') =>
-      let '(u', outs, requeue, input'', st) := uci_step extra u l input' in
+      let '(u', outs, requeue, input'', st) := uci_step extra (List.hd O dls) u l input' in
       match st with
-      | Continue => let '(outs', st') := uci_run extra f u' requeue input'' in (outs ++ outs', st')
+      | Continue => let '(outs', st') := uci_run extra (List.tl dls) f u' requeue input'' in (outs ++ outs', st')
       | _ => (outs, st)
       end
     end
@@ -230,5 +239,6 @@ Fixpoint uci_run (extra : N) (fuel : nat) (u : ustate) (pending : option string)
 Definition init_ustate : ustate :=
   mkU (match new_from_fen start_fen with FOk g => g | _ => mkGame [] 0 0 0 true 64 0 0 0 0 end) (PositiveMap.empty _) [].
 Definition with_eof (input : list (nat * string)) : list (nat * string) := input ++ [(O, "quit")].
-Definition uci_session (extra : N) (input : list (nat * string)) : list uout * status :=
-  uci_run extra (2 * List.length input + 4) init_ustate None (with_eof input).
+(* `dls`: the deadline oracle of the k-th executed line (only a `go` with a time budget looks at it) *)
+Definition uci_session (extra : N) (dls : list nat) (input : list (nat * string)) : list uout * status :=
+  uci_run extra dls (2 * List.length input + 4) init_ustate None (with_eof input).
